@@ -14,7 +14,7 @@ import gen
 import vlib
 from vlib import Report, ToolError, cached, cargo_build_or_die, log, mkscratch, rmtree
 
-DEPS = ["spec/Grammar.tla", "spec/CanonLR.tla", "spec/Sem.tla", "spec/SemVal.tla", "spec/Cfg.tla", "spec/Prec.tla", "spec/Macro.tla", "spec/MCEval.cfg", "spec/LRMachine.tla", "spec/MCRun.cfg", "tools/core.py", "tools/eng_core.py",
+DEPS = ["spec/Grammar.tla", "spec/CanonLR.tla", "spec/Sem.tla", "spec/SemVal.tla", "spec/Cfg.tla", "spec/Prec.tla", "spec/Macro.tla", "spec/Gen.tla", "spec/MCEval.cfg", "spec/LRMachine.tla", "spec/MCRun.cfg", "tools/core.py", "tools/eng_core.py",
         "tools/c_core.py", "tools/gen.py", "tools/lp.py", "tools/vlib.py", "harness/crates/runner", "harness/crates/lpdrv",
         "harness/Cargo.toml", "harness/.cargo"]
 PROPS = ["C01", "C02", "C04", "C05", "C06", "C07", "C08", "C16", "C17", "C19"]
@@ -75,6 +75,8 @@ def run_batch(cgs, tier, seed, keep_dir=None, variants_fn=None, owner=None):
                 cases.append(sugar.eval_case(cg, s, bound_for(cg, tier), True))
             else:
                 cases.append(core.eval_case(cg, s, bound_for(cg, tier), True))
+                if len(cases) % 3 == 0:
+                    cases[-1]["gen"] = True    # sanity net: Gen.tla vs the canonical oracle (a spec defect is exit 2)
     recs, states, generated = eng_core.run_eval(cases)
     lr1 = eng_core.run_eval.lr1
     reduced = eng_core.run_eval.reduced
